@@ -60,12 +60,24 @@ JOBS["C05"] = [
     H("liveness", "beaconnet", "^TestC05Liveness$", {"shards": 12, "checks": 12, "timeout": 1200}, {"shards": 14, "checks": 250, "timeout": 3400}),
 ]
 
+JOBS["C10"] = [
+    H("knownreplay", "beaconnet", "^TestC10KnownFindingReplay$", {"shards": 1, "checks": 1, "timeout": 300}),
+    H("sync", "beaconnet", "^TestC10Sync$", {"shards": 7, "checks": 25, "timeout": 1200}, {"shards": 14, "checks": 400, "timeout": 3400}),
+    H("checkrepair", "beaconnet", "^TestC10CheckRepair$", {"shards": 7, "checks": 40, "timeout": 1200}, {"shards": 14, "checks": 600, "timeout": 3400}),
+]
+
 LEVELS = {"C13": "fault_enumeration"}
 
 _MACHINE = ("rapid state machine over a network of real beacon handlers: scheme in 5, n in 2..6, t in [n/2+1,n], back-end in {memdb (cap 2000 or 10), bolt trimmed, bolt untrimmed}, period 2..6 s; "
             "actions: tick, sub-period advance, burst of 2-6 periods, advance of a subset (skew/stall), realign, partition/heal, queue mode with generated delivery order and drops, duplicate mode, stop/restart (same or fresh store), "
             "forged partial injection (12 kinds incl. valid-for-clock+k), scripted lying sync peer (13 kinds), sync-stream tap. ")
 RULES = {
+    "C10": "sync: one real node (scheme in 5, 3 back-ends, chained/unchained) at height h in {0,1,3,8} with a clock h+{1,2,5,12} rounds ahead catches up (Handler.Catchup + tick-triggered re-requests) from 1-5 scripted peers, each drawn from "
+           "{honest & ahead, honest but behind, refuses, silent, stalls after k, closes after k, bad signature, relabelled round, skipped round, repeated round, swapped order, group-signed wrong previous signature, foreign beacon id, "
+           "truncated signature, other chain's key} lying at position 0..4. Oracle: every Put verifies (own digest + key), Put history consecutive, never beyond what an honest peer holds; with an honest-ahead peer the store reaches the goal "
+           "within 80 periods of fake time (re-tried with a longer quiescence window before it counts). check/repair: a node holding a verified chain of 6-40 rounds; 1-5 rounds of the BASE store deleted / overwritten with garbage / with another "
+           "round's signature / with a wrong stored previous signature; ValidateChain(upTo in {L, L/2, L+5, 1, 3}) must report exactly the model set (per back-end: trimmed+chained also the successor); CorrectChain with scripted peers "
+           "(incl. silent / stalling ones while the node's clock advances) must restore exactly those, write only verifying beacons, fail when nobody can serve. Non-trivial: peer list mixing hostile and honest-ahead peers, or >= 1 corrupted round; distinct by full case descriptor.",
     "C05": "fault scripts over networks of real beacon handlers (scheme in 5, n in 3..6, t in [n/2+1,n], 3 back-ends, period 2..6 s, catch-up 1..period-1 s): healthy prefix of 0-3 rounds, 1-5 fault periods each a partition "
            "(possibly leaving no side with t nodes), node stops, per-link loss or idle, then a healed phase with >= t nodes up (stopped nodes restarted with their old or an empty store, some staying down). "
            "Oracle (bounded liveness in fake time, 1 s steps): all up nodes reach head == clock round within g*c*p/(p-c) + 4p (g = rounds missing at heal), the chain has no hole / fork (C02 scan), the next 3 periods each add exactly one round "
@@ -106,6 +118,7 @@ RULES = {
 }
 
 ASSUMPTIONS = {
+    "C10": ["fewer than t colluding members (group-signed forgeries are out of scope for repair)", "follow mode through the control API is not exercised by this check (participant mode + check/repair only)", "in-memory back-end: only missing rounds are in scope for repair (the ring keeps old values by design)"],
     "C05": ["liveness is checked as bounded liveness in fake time, not unbounded eventually", "catch-up period < period (with equality a gap can never close by construction)", "in-memory network: gRPC back-off not modelled"],
     "C03": ["adversary holds fewer than t shares", "kyber VerifyPartial is the harness's validity criterion"],
     "C18": ["bbolt itself is correct", "postgres back-end not reachable offline (not covered)", "signatures are non-empty byte strings"],
